@@ -1194,7 +1194,7 @@ def c12(ctx):
             for it in r['items']:
                 tr = it.get('trait')
                 if tr is None and 'fn new' in (it.get('members') or []):
-                    tr = 'Default'
+                    tr = 'Default:new'
                 if tr == 'Into':
                     tr = 'Into:' + {'TA': 'A', 'TB': 'B'}.get(nospace(it.get('target') or ''), '?')
                 e = {'t': r['id'], 'op': 'impl', 'tr': tr or '?', 'generics': [nospace(g) for g in it.get('generics', [])],
